@@ -137,6 +137,25 @@ CHECKS = {
         note=TB + " Does not decide equality of values for all packets (a symmetric mistake is C10's job; SVCB map order, TXT "
              "cached size, empty TXT are value-level). Name is covered by C06/C03, the RData dispatch by C18-R3.",
         ref="DESIGN.md section 4 C02"),
+    "C03": dict(
+        technique="emit-sequence comparison of sibling writers (write_to vs write_compressed_to) + table-flow and offset-bound rules on Name::compress_append",
+        text="Every write_compressed_to override (26) is shown to emit the same wire elements in the same order as the type's "
+             "write_to, names (and containers of names) being the only items routed through the compressing writer; "
+             "Name::compress_append emits per label either one big-endian 2-byte pointer and returns, or plain_append's length "
+             "byte + bytes, then the root byte; exactly one compression table is created per message and every nested call "
+             "passes the caller's own table; every recorded offset is entailed to be <= 0x3FFF, so pointers are well-formed for "
+             "messages of any size; RDLENGTH is patched from captured positions (C04-R6). 'Never longer' follows from the shape.",
+        note=TB + " A-SEEK. Does not decide that the parse of both outputs is equal for all packets (value-level).",
+        ref="DESIGN.md section 4 C03"),
+    "C07": dict(
+        technique="call-graph reachability (who may compress) + emit sequences + numeric entailment on the recorded offsets",
+        text="From tables/compression.tsv (the property's two lists): the names that must be compressed are routed to "
+             "Name::compress_append by their type's write_compressed_to, the types whose RFCs forbid compression never reach it; "
+             "the pointer is `offset | 0xC000` written as one big-endian u16 with offset <= 0x3FFF; the table entry for a suffix "
+             "is (writer position before the label's first byte, &labels[i..]). One genuine defect (offsets are absolute stream "
+             "positions, not message-relative) is recorded as a known finding.",
+        note=TB + " A-SEEK. 'Expands to the intended name' beyond the record-before-write clause is not decided.",
+        ref="DESIGN.md section 4 C07"),
 }
 
 NA = {
